@@ -776,6 +776,38 @@ theorem lockstep_sequence (cfg : StreamCfg) : ∀ (xs : List (ReqInfo × List Na
       · simp [hr]
     simp only [session, hpre, List.nil_append, List.map_cons, ih]
 
+/-- **C08 `abandoned_connection_not_reused`.**  A session that does not complete — only the
+header was read, an exception left the block, `abort()` was called — never hands its
+connection back for reuse: the response body still in flight cannot become the beginning of
+the next response. -/
+theorem abandoned_connection_not_reused (idx : Nat) (lv : Leave) (r : Result) (w : Wire)
+    (h : lv ≠ .downloaded) : (linkAfter idx lv r w).reuse = false := by
+  cases lv <;> simp [linkAfter, Link.reuse] at h ⊢
+
+/-- **C08 `lockstep_sequence_leaves`.**  `lockstep_sequence` for sessions left in any way: every
+response (or, for a header-only session, every header block) is decoded from the first byte the
+peer sent for that request. -/
+theorem lockstep_sequence_leaves (cfg : StreamCfg) : ∀ (xs : List (ReqInfo × List Nat × Wire × Leave)) (l : Link),
+    (sessionL dc cfg l xs).map (·.2) = xs.map (fun x =>
+      match x.2.2.2 with
+      | .downloaded => decode dc cfg x.1 x.2.1 x.2.2.1
+      | _ => decodeHead x.2.1 x.2.2.1) := by
+  intro xs
+  induction xs with
+  | nil => intro l; simp [sessionL]
+  | cons x t ih =>
+    intro l
+    obtain ⟨req, σ, w, lv⟩ := x
+    have hpre : (if l.reuse then l.leftover else []) = [] := by
+      by_cases hr : l.reuse = true
+      · simp only [hr, if_true]
+        unfold Link.reuse at hr
+        simp only [Bool.and_eq_true, List.isEmpty_iff] at hr
+        exact hr.1.2
+      · simp [hr]
+    simp only [sessionL, hpre, List.nil_append, List.map_cons, ih]
+    cases lv <;> rfl
+
 /-- ... and a conforming exchange (complete, nothing after it, no `Connection: close`, peer
 keeps the connection open) does keep the connection: persistence is not given up -/
 theorem keepalive_kept (h : dc.Hom) (cfg : StreamCfg) (req : ReqInfo) (σ : List Nat) (w : Wire) (idx : Nat)
